@@ -1068,8 +1068,10 @@ det_case(long idx)
 	}
 	atomic_store(&g_closing, 1);
 	if (d->sentinel) nng_ctx_close(d->z);
-	for (int i = 0; i < d->npub; i++) nng_socket_close(d->pub[i]);
+	// the dialing side closes first: TIME_WAIT then sits on the dialer's
+	// port, and the listeners' ephemeral ports are free again at once
 	nng_socket_close(d->sub);
+	for (int i = 0; i < d->npub; i++) nng_socket_close(d->pub[i]);
 	nng_aio_free(d->zaio);
 	for (int i = 0; i < K_N; i++) {
 		if (d->k[i]) vf_stat(knames[i], d->k[i]);
@@ -1462,8 +1464,8 @@ conc_case(long idx)
 		vf_sample("{\"mode\":\"conc\",\"tran\":\"%s\",\"subscribers\":%d,\"published\":%d,\"received_checked\":%ld,\"topic_ops\":%ld,\"receives_overlapping_topic_change\":%ld}",
 		    vf_tran_names[c->tran], c->nsub, c->nmsgs[0] + c->nmsgs[1], rec, tops, ovl);
 	}
-	for (int i = 0; i < 2; i++) nng_socket_close(c->pub[i]);
 	nng_socket_close(c->sub);
+	for (int i = 0; i < 2; i++) nng_socket_close(c->pub[i]);
 	free(c);
 }
 
